@@ -31,6 +31,9 @@ namespace heap {
    const char* policy_name(int);
 
    constexpr int max_owners = 8;
+   // The last sub-arena is never reset: it receives what the library allocates once per process (lazily initialised
+   // function-local statics) while the warm-up run executes, before the first simulated run.  Leak accounting never looks at it.
+   constexpr int process_owner = max_owners - 1;
 
    struct Stats {
       uint64_t allocs = 0;        // SUT allocations served
